@@ -1,6 +1,7 @@
 import ClusterVerif.Spec.C01
 import ClusterVerif.Model.C01Commit
 import ClusterVerif.Gen.C01Shutdown
+import ClusterVerif.Spec.C01Folder
 import Driver.PinParse
 /-!
 C01 driver. One case = one history:
@@ -337,10 +338,89 @@ def answerRedir (pre post : List String) : String :=
     | _, _, _ => "bad-case parse"
   | _ => "bad-case shape"
 
+/-! ### kind fold: `C01 fold <k> <step>,… => <res>~<visible>[~<meta>] …` (data-folder tools, `Model/C01Folder`) -/
+
+def parseCidSet (s : String) : Option (List Nat) :=
+  if s == "-" then some [] else (s.splitOn ".").mapM (·.toNat?)
+
+def parseFoldStep (s : String) : Option Folder.Step :=
+  match s.toList with
+  | ['R'] => some .restart
+  | ['n'] => some .snapshot
+  | ['d'] => some .shutdown
+  | ['o'] => some .offline
+  | ['c'] => some .clean
+  | 'p' :: rest => (String.ofList rest).toNat?.map .pin
+  | 'u' :: rest => (String.ofList rest).toNat?.map .unpin
+  | 'i' :: rest => (parseCidSet (String.ofList rest)).map .importSt
+  | _ => none
+
+def parseFoldObs (so : Folder.Step × String) : Option Folder.Obs :=
+  let isImport := match so.1 with | .importSt _ => true | _ => false
+  match so.2.splitOn "~" with
+  | [r, v] => do
+    let res ← if r == "ok" then some Folder.Res.ok else if r == "err" then some .refused else if r == "noop" then some .noop else none
+    if isImport && r == "ok" then none else pure ⟨so.1, res, ← parseCidSet v⟩
+  | [r, v, m] => do
+    if !isImport || r != "ok" then none
+    let res ← if m == "k" then some Folder.Res.kept else if m == "f" then some .fresh else if m == "x" then some .ok else none
+    pure ⟨so.1, res, ← parseCidSet v⟩
+  | _ => none
+
+def foldResTok : Folder.Res → String
+  | .ok => "ok" | .kept => "kept" | .fresh => "fresh" | .refused => "refused" | .noop => "noop"
+
+def foldStepArm (up : Bool) (o : Folder.Obs) : String :=
+  "arm=fold+" ++ (match o.step with
+    | .pin _ => "pin" | .unpin _ => "unpin" | .snapshot => "snapshot" | .shutdown => "shutdown" | .offline => "offline"
+    | .importSt m => if m.isEmpty then "import-empty" else "import" | .clean => if up then "clean-live" else "clean-down"
+    | .restart => "start") ++ "-" ++ foldResTok o.res
+
+def foldArms : Bool → List Folder.Obs → List String
+  | _, [] => []
+  | up, o :: rest => foldStepArm up o :: foldArms (Folder.upAfter up o.step) rest
+
+/-- per observation: (a node runs after the step, the observation shows the acknowledged state, an import over an
+    existing snapshot happened before or at this step) -/
+def foldMarks : Bool → List Nat → Bool → List Folder.Obs → List (Bool × Bool × Bool)
+  | _, _, _, [] => []
+  | up, ref, kept, o :: rest =>
+    let ref' := Folder.refStep ref o.step o.res
+    let up' := Folder.upAfter up o.step
+    let kept' := kept || o.res == .kept
+    (up', o.vis == ref', kept') :: foldMarks up' ref' kept' rest
+
+def answerFold (pre post : List String) : String :=
+  match pre with
+  | [_, stepsT] =>
+    match (stepsT.splitOn ",").mapM parseFoldStep with
+    | none => "bad-case parse-steps"
+    | some steps =>
+      if steps.length != post.length then "bad-case obs-count" else
+      match (steps.zip post).mapM parseFoldObs with
+      | none => "bad-case parse-obs"
+      | some obs =>
+        let model := Folder.runTrace {} steps
+        let arm := "arm=fold " ++ " ".intercalate (foldArms false model).eraseDups
+        let failed := (Folder.foldClauses obs).filter (fun c => !c.2)
+        let diffs := ((model.zip obs).zipIdx).filter (fun mo => mo.1.1 != mo.1.2)
+        -- signature of proposal K01e: every wrong observation is an OFFLINE read (node down) after an import that took
+        -- over the metadata of an existing snapshot
+        let bad := (foldMarks false [] false obs).filter (fun m => !m.2.1)
+        let sigK := !bad.isEmpty && bad.all (fun m => !m.1 && m.2.2)
+        if !failed.isEmpty then
+          "propfail " ++ ",".intercalate (failed.map (·.1)) ++ " " ++ arm ++ " window=0 origins=0 order=1" ++
+            (if sigK then " offline-after-import-kept=1" else "") ++ " agree=" ++ (if diffs.isEmpty then "1" else "0")
+        else match diffs.head? with
+          | some d => "diff " ++ arm ++ " step" ++ toString d.2 ++ ":model=" ++ foldResTok d.1.1.res ++ "~" ++ showNats d.1.1.vis
+          | none => "ok " ++ arm ++ (if steps.any (fun st => match st with | .pin _ => true | .importSt _ => true | _ => false) then "" else " trivial")
+  | _ => "bad-case shape"
+
 def answer (ws : List String) : String :=
   match splitArrow ws with
   | none => "bad-case no-arrow"
   | some ("redir" :: pre, post) => answerRedir pre post
+  | some ("fold" :: pre, post) => answerFold pre post
   | some (pre, []) => "bad-case no-gate-token " ++ toString pre.length
   | some (pre, g :: post) =>
     match pre with
